@@ -166,6 +166,11 @@ pub fn run_runtime(out: &mut Out, tier: &str, rng: &mut Rng) {
         // exactly the queue size is not an overrun
         vec![vec![engine(1500)], { let mut g = lag(16, None); g[15] = engine(2300); g }, vec![other()]],
         vec![lag(17, None), vec![engine(2300)], vec![other()]],
+        // several signals queued together and processed in one go: each of them gets its own decision (two sequences while
+        // the emergency is pending; one for a reading that starts it followed at once by the reading that ends it)
+        vec![vec![engine(2300)], vec![other(), other()], vec![engine(1500)], vec![other(), other()]],
+        vec![vec![engine(2300), engine(1500)], vec![other()], vec![engine(1500), engine(2300)], vec![other()]],
+        vec![vec![rot(0x7A, 50.0, 0.0, 0.0, true), rot(0x7A, 10.0, 0.0, 0.0, true)], vec![other(), engine(2201)], vec![other()]],
     ];
     for _ in 0..(if tier == "thorough" { 60 } else { 10 }) {
         let mut groups = vec![];
